@@ -178,3 +178,16 @@ def _(v):
     want2 = {"A": -3 * r[0] - r[1] + r[2] + r[4], "B": r[0] - 2 * r[1], "C": 3 * r[1] - r[2] - r[3], "D": r[3] - 3 * r[4]}
     for e, s in zip(ode2.exprs, "ABCD"):
         v.prove_identity("rebuilt_after_changing_a_constant.rhs_" + s, e, want2[s])
+    # a reversible bimolecular step written as ONE equilibrium with a kinetically inactive participant on each side, split into its two directions:
+    # the backward step gives back what the forward step takes (inactive parts mirrored), and neither enters a concentration product
+    from chempy.chemistry import Equilibrium
+    eq = Equilibrium.from_string("A + B + (S) = C + (2 W); 4")
+    for label, kw, kf, kb in (("kf_given", {"kf": 3}, 3, F(3, 4)), ("kb_given", {"kb": 5}, 20, 5)):
+        sys3 = ReactionSystem(eq.as_reactions(**kw), "A B C S W", substance_factory=Substance)
+        ode3, _x = v.call(get_odesys, sys3, SymbolicSys=FakeSymbolicSys)
+        y3 = dict(zip(ode3.names, ode3.dep))
+        net = kf * y3["A"] * y3["B"] - kb * y3["C"]
+        want3 = {"A": -net, "B": -net, "C": net, "S": -net, "W": 2 * net}
+        v.prove("reversible_step_with_inactive_parts.%s.names" % label, list(ode3.names) == ["A", "B", "C", "S", "W"])
+        for e, s in zip(ode3.exprs, "ABCSW"):
+            v.prove_identity("reversible_step_with_inactive_parts.%s.rhs_%s" % (label, s), e, want3[s])
